@@ -63,9 +63,20 @@ def run_tasks(tasks, nproc=None):
     if nproc <= 1 or len(tasks) == 1:
         res = [_worker(t) for t in tasks]
     else:
+        # ProcessPoolExecutor (not multiprocessing.Pool): a worker killed from outside (OOM, signal) breaks the pool
+        # with an exception instead of hanging the check forever
+        import concurrent.futures as cf
         ctx = multiprocessing.get_context('fork')
-        with ctx.Pool(min(nproc, len(tasks))) as pool:
-            res = pool.map(_worker, tasks, chunksize=1)
+        res = [None] * len(tasks)
+        with cf.ProcessPoolExecutor(min(nproc, len(tasks)), mp_context=ctx) as ex:
+            futs = {ex.submit(_worker, t): i for i, t in enumerate(tasks)}
+            for f in cf.as_completed(futs):
+                i = futs[f]
+                try:
+                    res[i] = f.result()
+                except Exception as e:      # BrokenProcessPool and friends
+                    res[i] = [{'name': f'{tasks[i][0]}.{tasks[i][1]}', 'case': repr(tasks[i][2])[:200], 'kind': 'engine',
+                               'verdict': 'crash', 'note': f'worker process died: {e!r}', 'secs': 0.0}]
     flat = []
     for r in res:
         flat.extend(r)
@@ -160,7 +171,56 @@ class Check:
         for a in arglist:
             self.tasks.append((modname, fname, tuple(a)))
 
+    def lean_start(self):
+        """thorough tier: re-check the Lean proofs of the Sigma-axioms the SMT obligations assume (started before the
+        worker pool, collected after it; lean is mostly I/O bound while loading Mathlib)"""
+        import shutil
+        f = os.path.join(VERIF, 'lemmas', 'Sigma.lean')
+        if not shutil.which('lean') or not os.path.exists(f):
+            return None
+        return (time.time(), subprocess.Popen(['lean', f], stdout=subprocess.PIPE, stderr=subprocess.STDOUT, text=True,
+                                              cwd=os.path.dirname(f)))
+
+    def lean_collect(self, h):
+        if h is None:
+            return {'file': 'lemmas/Sigma.lean', 'status': 'unavailable'}
+        t0, p = h
+        try:
+            out, _ = p.communicate(timeout=1800)
+        except subprocess.TimeoutExpired:
+            p.kill()
+            return {'file': 'lemmas/Sigma.lean', 'status': 'timeout', 'secs': round(time.time() - t0, 1)}
+        ok = p.returncode == 0 and 'error' not in out and 'sorry' not in out
+        return {'file': 'lemmas/Sigma.lean', 'status': 'checked' if ok else 'failed', 'secs': round(time.time() - t0, 1),
+                'theorems': ['WS_lin', 'WS_ext', 'WS_pos', 'WS_mono', 'WS_point'], 'output': out[-600:]}
+
+    def differential(self, results):
+        """thorough tier: engine-vs-CPython differential over pyvc/diff_corpus.py (validates the interpreter the
+        obligations were generated with, on this very tree)"""
+        try:
+            from . import differential
+            code, summary = differential.main(verbose=False)
+        except Exception as e:
+            code, summary = 3, {'error': repr(e)}
+        self.extra.setdefault('coverage', {})['engine_vs_cpython'] = summary
+        if code != 0:
+            results.append({'name': 'pyvc.differential', 'case': '', 'kind': 'engine', 'verdict': 'crash',
+                            'note': 'engine and CPython disagree on concrete scenarios: ' + json.dumps(summary, default=str)[:1500]})
+
     def run(self):
+        if self.tier == 'thorough':
+            self.post.append(lambda results: self.differential(results) or [])
+        if self.tier == 'thorough' and any(a.startswith('Sigma-axioms') for a in self.assumptions):
+            h = self.lean_start()
+            results = run_tasks(self.tasks)
+            r = self.lean_collect(h)
+            self.extra.setdefault('coverage', {})['lean_lemmas'] = r
+            if r.get('status') == 'failed':
+                results.append({'name': 'lemmas/Sigma.lean', 'case': '', 'kind': 'engine', 'verdict': 'crash',
+                                'note': 'lean rejected the Sigma lemmas: ' + r.get('output', '')})
+            for p in self.post:
+                results.extend(p(results))
+            return self.finish(results)
         results = run_tasks(self.tasks)
         for p in self.post:
             results.extend(p(results))
@@ -343,7 +403,7 @@ class Check:
         }
         cov.update(self.extra.get('coverage', {}))
         ev = {'property_id': pid, 'tier': self.tier, 'seed': self.seed, 'level': level, 'coverage': cov,
-              'assumptions': self.assumptions, 'wall_s': round(wall, 2), 'violations': len(reported)}
+              'assumptions': list(self.assumptions) + [a for a in TRUSTED_BASE if a not in self.assumptions], 'wall_s': round(wall, 2), 'violations': len(reported)}
         os.makedirs(EVIDENCE_DIR, exist_ok=True)
         json.dump(ev, open(os.path.join(EVIDENCE_DIR, f"{pid}.json"), 'w'), indent=1, default=str)
         for ln in lines:
